@@ -289,7 +289,7 @@ class Driver:
                 p = subprocess.run([DRIVER], stdin=fin, capture_output=True, text=True, timeout=timeout)
             if p.returncode != 0:
                 raise Infra('driver crashed: ' + p.stderr[-2000:])
-            out = [json.loads(l) for l in p.stdout.splitlines() if l.strip()]
+            out = [json.loads(l) for l in p.stdout.split('\n') if l.strip()]
             if len(out) != len(requests):
                 raise Infra('driver answered %d of %d requests; stderr=%s'
                             % (len(out), len(requests), p.stderr[-500:]))
